@@ -1341,6 +1341,9 @@ class Evaluator:
                 m = re.match(r"^\[.*;\s*(\d+)(?:_?usize)?\]$", t_.strip())
                 if m:
                     return V("Ok", (list(a0),)) if len(a0) == int(m.group(1)) else V("Err", (a0,))
+        if base.startswith("core::panicking::") or base.startswith("std::panicking::") or base in ("std::rt::begin_panic", "core::option::unwrap_failed", "core::result::unwrap_failed", "core::option::expect_failed"):
+            self.path.events.append(Event("panic", fn, list(args), None, node.get("sp") if node else None, name=name))
+            raise Panic(name)       # panic!/unreachable!/unimplemented!/assert! failure
         # futures::join! / try_join!: each future is evaluated eagerly (no interleaving), the poll closure then finds all of them done
         if base.endswith("maybe_done::maybe_done") and len(args) == 1:
             return St("futures_util::future::maybe_done::MaybeDone", {"out": self.run_future(a0, depth)})
